@@ -1074,7 +1074,11 @@ class Unit:
                 if prefix.quantify() != 1
                 else None
             ),
-            "factors": None if factors == ((self, 1),) else factors,
+            "factors": (
+                None
+                if factors == ((self, 1),)
+                else [(unit.__json__(), exponent) for unit, exponent in factors]
+            ),
         }
 
     @classmethod
@@ -1082,9 +1086,18 @@ class Unit:
         if not json_object["factors"]:
             return cls._by_name[json_object["name"]]
 
+        # the nested objects arrive already decoded from MeasuredJSONDecoder, and as
+        # plain dictionaries from serializers (like pydantic's) that have no object hook
         prefix = json_object["prefix"] or Prefix(0, 0)
-        factors = dict(json_object["factors"])
+        if isinstance(prefix, dict):
+            prefix = Prefix.__from_json__(prefix)
+        factors = {
+            (Unit.__from_json__(unit) if isinstance(unit, dict) else unit): exponent
+            for unit, exponent in json_object["factors"]
+        }
         dimension = json_object["dimension"]
+        if isinstance(dimension, dict):
+            dimension = Dimension.__from_json__(dimension)
         return Unit(prefix, factors, dimension)
 
     # Pydantic support
